@@ -26,7 +26,7 @@ def main():
                 status = 'MISSED'
                 for prop in m['props']:
                     p = subprocess.run([os.path.join(VERIF, 'check'), prop], capture_output=True, text=True,
-                                       env=dict(os.environ, VERIF_REPO=scratch, VERIF_NO_EVIDENCE='1'))
+                                       env=dict(os.environ, VERIF_REPO=scratch, VERIF_NO_EVIDENCE='1', VERIF_REPLAY_DIR=os.path.join(scratch, '.verif-replays')))
                     viol = [l for l in p.stdout.split('\n') if l.startswith('VIOLATION')]
                     if p.returncode == 1 and viol:
                         status = 'KILLED'
